@@ -4,7 +4,6 @@ import Pcore.Proofs.DescribeWF
 import Pcore.Proofs.DescribeSig
 import Pcore.Proofs.DescribeLeaf
 import Pcore.Proofs.DescribeTm
-import Pcore.Proofs.DescribeCallable
 set_option linter.unusedSimpArgs false
 set_option linter.unusedVariables false
 /-!
@@ -59,9 +58,8 @@ Full statement / proved / missing
                                 an argument type that is no Tuple/Array leaves `aSize` nil and IntegerType.IsAssignable dereferences it; the
                                 default Callable has no parameter tuple (type assertion on nil); a parameter tuple without types that takes an
                                 argument is indexed at -1.
-* `C19_callable_total`, `C19_callable_empty_iff` — PROVED for an expected Callable at the top of the expectation (model `DescribeCallable.lean`:
-                                CallableType.IsAssignable `asgC`, describeCallableType with parameters / return type / block, guard, fallback):
-                                never a fault; empty exactly when the Callable accepts the actual type.
+* Callable expectations       — `Ty.callable` (lattice model) + the `.callable` arm of `internalDescribe` (describeCallableType: parameters, return
+                                type, block): covered by EVERY theorem above, at the top of the expectation or nested anywhere.
 * missing: the English of `text()` (article, "or"-lists, detailed vs short type names, quoting); Callable / Init expectations, user-defined
   aliases and unresolved TypeReferences are not in the term language (harness-side tests: `@cdesc`, `@cassert`, `@sigs`, `t2-*`).
 * (audit, notes/audit-C19.md) "inferring the detailed type never fails" has no theorem: `dtype` is a total Lean function without a fault
@@ -397,7 +395,7 @@ example (cfg : Cfg) : asg cfg true (.int ⟨1, 2⟩) .str = false := by simp [as
 
 /-! ### describeSignatures -/
 /-- NO FAULT in the argument-error description of a dispatch, for every call that respects the contract -/
-theorem C19_signatures_total (cfg : Cfg) (sfh : Bool) (sigs : List Sig) (args : Ty) (blk : Option CT)
+theorem C19_signatures_total (cfg : Cfg) (sfh : Bool) (sigs : List Sig) (args : Ty) (blk : Option Ty)
     (hs : ∀ sg ∈ sigs, SigOK sg) (ha : ArgsOK args) : ∀ k, describeSignatures cfg sfh sigs args blk ≠ .fault k :=
   describeSignatures_total cfg sfh sigs args blk hs ha
 
@@ -419,24 +417,15 @@ theorem C19_signatures_fault_paramIndex (cfg : Cfg) :
     describeSignatures cfg true [{ params := some ([], ⟨1, 1⟩), names := [], block := none }] (.tuple [.strVal "a"] none) none = .fault .paramIndex := by
   simp [describeSignatures, sigAllArgs, sigArguments, sigArgLoop, tupleSize, Rng.exact, Rng.sub]
 
-/-! ### Callable expectations -/
-/-- NO FAULT in the description against an expected Callable (parameters, return type, block) -/
-theorem C19_callable_total (cfg : Cfg) (sfh : Bool) (e : CT) (a : CAct) (p : Path) : ∃ ms, describeC cfg sfh e a p = .ok ms :=
-  describeC_total cfg sfh e a p
-
-/-- EMPTY IFF ASSIGNABLE for an expected Callable (CallableType.IsAssignable; a lattice type is accepted only through the right-hand
-    decomposition of GuardedIsAssignable) -/
-theorem C19_callable_empty_iff (cfg : Cfg) (sfh : Bool) (e : CT) (a : CAct) (p : Path) :
-    describeC cfg sfh e a p = .ok [] ↔ asgCA cfg sfh e a = true :=
-  describeC_empty_iff cfg sfh e a p
-
+/-! ### Callable expectations: `Ty.callable` is a type term like any other, so every theorem above covers a Callable at the top of the
+    expectation or nested anywhere in it (describeCallableType is the `.callable` arm of `internalDescribe`) -/
 /-- a Callable that promises a return type against one that declares none: described below a `return` path element (what the seeded
     change C19-s8 crashed on) -/
 example (cfg : Cfg) :
-    describeC cfg true ⟨some ([.str], none), some (.int Rng.all), none⟩ (.callable ⟨some ([.str], none), none, none⟩) (subjectPath "x")
-      = .ok [.returnTm (subjectPath "x" ++ [⟨.ret, ""⟩]) (.int Rng.all) .any] := by
-  simp [describeC, asgCA, asgC, asgRetParams, describeCallableType, paramErrors, retPart, paramTuple, internalDescribe, tyEq, tyEqL,
-    tupleSize, asg, asgRecv, sameNullary, subjectPath]
+    describe cfg true (.callable (some (.tuple [.str] none)) (some (.int Rng.all)) none) (.callable (some (.tuple [.str] none)) none none)
+        (subjectPath "x")
+      = .ok [.typeMismatch (subjectPath "x" ++ [⟨.ret, ""⟩]) (.ofTy (.int Rng.all)) .any] := by
+  simp [describe, internalDescribe, callTail, callBlock, Res.orElse, tyEq, tyEqL, tupleSize, asg, asgRecv, sameNullary, subjectPath]
 
 /-! ### audit additions (stranger's review, notes/audit-C19.md): the skeleton and the structure model agree; the property's sentence about
 values, read from its text -/
@@ -489,5 +478,6 @@ example (cfg : Cfg) : ∀ m ∈ [Mismatch.typeMismatch (subjectPath "x" ++ [PE.n
   C19_names_subject cfg true "x" (.array (.int ⟨1, 2⟩) ⟨0, 5⟩) (.tuple [.int ⟨1, 1⟩, .str] none) _ (by
     simp [describe, internalDescribe, descAll, arrTupItems, Res.append, tupleSize, Rng.exact,
       asg, asgRecv, sameNullary, tupZip, Rng.sub, subjectPath])
+
 
 end Pcore.Desc
